@@ -733,12 +733,26 @@ func c06Prefixer(c *Ctx, r *Report) {
 			locP = p
 		}
 	}
+	// stores that put loc into the path: Path = append([loc], Path...), or Path[0] = loc after shifting
 	var stores []*ssa.Store
 	for _, b := range in.Blocks {
 		for _, ins := range b.Instrs {
-			if st, ok := ins.(*ssa.Store); ok {
-				if fa, ok := st.Addr.(*ssa.FieldAddr); ok {
-					if o, f := fieldOwner(fa.X.Type(), fa.Field); o == "Error" && f == "Path" {
+			st, ok := ins.(*ssa.Store)
+			if !ok {
+				continue
+			}
+			switch ad := st.Addr.(type) {
+			case *ssa.FieldAddr:
+				if o, f := fieldOwner(ad.X.Type(), ad.Field); o == "Error" && f == "Path" {
+					if call, ok := st.Val.(*ssa.Call); ok && isBuiltinCall(call, "append") {
+						if els, ok := sliceLitElems(call.Call.Args[0]); ok && len(els) == 1 && stripIface(els[0]) == ssa.Value(locP) {
+							stores = append(stores, st)
+						}
+					}
+				}
+			case *ssa.IndexAddr:
+				if _, o, f, ok := loadOfField(ad.X); ok && o == "Error" && f == "Path" && stripIface(st.Val) == ssa.Value(locP) {
+					if k, ok := ad.Index.(*ssa.Const); ok && k.Value != nil && k.Int64() == 0 {
 						stores = append(stores, st)
 					}
 				}
@@ -746,22 +760,17 @@ func c06Prefixer(c *Ctx, r *Report) {
 		}
 	}
 	okAll := len(stores) > 0
-	why := "no store to Error.Path"
+	why := "no store that puts the location at the head of Error.Path"
 	for _, rt := range returnsOf(in) {
 		dom := false
 		for _, st := range stores {
 			if st.Block() == rt.Block() || st.Block().Dominates(rt.Block()) {
-				// value: append(<slice literal [loc]>, Path...)
-				if call, ok := st.Val.(*ssa.Call); ok && isBuiltinCall(call, "append") {
-					if els, ok := sliceLitElems(call.Call.Args[0]); ok && len(els) == 1 && stripIface(els[0]) == ssa.Value(locP) {
-						dom = true
-					}
-				}
+				dom = true
 			}
 		}
 		if !dom {
 			okAll = false
-			why = "a return at " + c.pos(rt.Pos()) + " is reached without Path = append([loc], Path...)"
+			why = "a return at " + c.pos(rt.Pos()) + " is reached without the location having been put at the head of Path"
 		}
 	}
 	r.check("C06.PREFIX", "(*Error).in prepends the location unconditionally", in.Pos(), okAll, why+": a segment is dropped where the true path repeats a key or an index, so the reported path does not address the failing position")
